@@ -1210,7 +1210,9 @@ func (g *Gen) oneItem() {
 	n := g.r.Intn(20)
 	if g.o.NestedGeneric && !g.familyDone && g.r.Chance(1, 6) {
 		g.familyDone = true
-		switch g.r.Intn(5) {
+		switch g.r.Intn(6) {
+		case 5:
+			g.itemGenericDeepChain()
 		case 4:
 			g.itemGenericFromFieldAccess()
 		case 0:
@@ -1924,6 +1926,73 @@ func (g *Gen) itemGenericNesting() {
 		g.use(boxItem)
 		g.use(optItem)
 		g.push("let", name, "let "+name+" (b: "+box+"<"+base+">) =\n  b."+def+"\n\n")
+	}
+}
+
+// itemGenericDeepChain is a schema: one generic union and a chain of 3-8 generic records, each holding an optional
+// value of the level below (or one record nesting the union in itself that deep). A definition over the lowest
+// level is under observation; an unrelated one instantiates the top level, which walks through all the nested
+// instances of the one union on a single path.
+func (g *Gen) itemGenericDeepChain() {
+	k := g.fresh("D")
+	opt, some, none := "Opt"+k, "Some"+k, "None"+k
+	optItem := len(g.items)
+	g.push("type", opt, "type "+opt+"<T> =\n  | "+some+" of T\n  | "+none+"\n\n")
+	depth := g.r.Range(3, 8)
+	base := []string{"int", "string", "bool"}[g.r.Intn(3)]
+	low := "Lv0" + k
+	lowItem := len(g.items)
+	g.use(optItem)
+	inner := "T"
+	nest := 1
+	if g.r.Chance(1, 3) {
+		nest = g.r.Range(2, 3)
+	}
+	for i := 0; i < nest; i++ {
+		inner = opt + "<" + inner + ">"
+	}
+	g.push("type", low, "type "+low+"<T> = {Val"+k+": "+inner+"; Def"+k+": T}\n\n")
+	observed := func() {
+		name := g.fresh("valOf")
+		g.use(lowItem)
+		g.use(optItem)
+		g.push("let", name, "let "+name+" (l: "+low+"<"+base+">) =\n  l.Val"+k+"\n\n")
+	}
+	early := g.r.Chance(1, 2)
+	if early {
+		observed()
+	}
+	prev, prevItem := low, lowItem
+	if g.r.Chance(1, 3) {
+		// one record nesting the union in itself around the lowest level
+		top := "Deep" + k
+		t := prev + "<T>"
+		for i := 0; i < depth; i++ {
+			t = opt + "<" + t + ">"
+		}
+		g.use(prevItem)
+		g.use(optItem)
+		prevItem = len(g.items)
+		g.push("type", top, "type "+top+"<T> = {Down"+k+": "+t+"; Id"+k+": int}\n\n")
+		prev = top
+	} else {
+		for i := 1; i <= depth; i++ {
+			name := fmt.Sprintf("Lv%d%s", i, k)
+			g.use(prevItem)
+			g.use(optItem)
+			it := len(g.items)
+			g.push("type", name, fmt.Sprintf("type %s<T> = {Down%d%s: %s<%s<T>>; Id%d%s: int}\n\n", name, i, k, opt, prev, i, k))
+			prev, prevItem = name, it
+		}
+	}
+	{
+		name := g.fresh("unrelatedTop")
+		g.use(prevItem)
+		g.use(optItem)
+		g.push("let", name, "let "+name+" (t: "+prev+"<"+base+">) =\n  1\n\n")
+	}
+	if !early || g.r.Chance(1, 2) {
+		observed()
 	}
 }
 
